@@ -123,7 +123,7 @@ func (i *Injection) Disarm() []Hook {
 
 // ProcessValidatedPublish is ProcessValidated with the publish flag of Executer.processValidated.
 func (n *Node) ProcessValidatedPublish(b *blockchain.Block, removeTemp, publish bool) error {
-	cp, err := CopyBlock(b)
+	cp, err := n.copyIn(b)
 	if err != nil {
 		return err
 	}
